@@ -169,11 +169,24 @@ def run_parse(ctx):
         meta.append((c, real))
         ctx.count(("parse", c), nontrivial=(real != "none"), sample={"comment": c, "parsed": real} if isinstance(real, tuple) and real[2] and len(ctx.samples) < 4 else None)
         ctx.bump("parse_" + (real if isinstance(real, str) else "dir"))
-        # property-level oracle: unmatched references are kept literally; matched ones expand to mapped codes
+        # property-level oracle (from the statement): every reference expands to the codes of the keys it names or
+        # matches as a glob, and a reference that matches nothing is kept literally (so PRS/TMP/LXR keep working)
         if isinstance(real, tuple) and real[2] is not None:
-            for code in real[2]:
-                if code in ("PRS", "TMP", "LXR") and code not in c:
-                    ctx.violation("parser invented a special code", {"comment": c, "rules": real[2]})
+            last = [p.strip() for p in c.split("--")][-1]
+            body = last[4:].lstrip(":").strip() if last.startswith("noqa") else ""
+            if "=" in body:
+                body = body.split("=", 1)[1]
+            expect = set()
+            for ref in [x.strip() for x in body.split(",")]:
+                hits = [k for k in REFMAP if fnmatch.fnmatchcase(k, ref)]
+                if hits:
+                    for k in hits:
+                        expect |= REFMAP[k]
+                else:
+                    expect.add(ref)
+            if set(real[2]) != expect:
+                ctx.violation("noqa rule references resolve to the wrong rule set (unmatched references such as PRS/TMP/LXR must be kept)",
+                              {"comment": c, "rules": real[2], "expected": sorted(expect)})
     outs = ctx.driver.run(lines)
     for (c, real), out in zip(meta, outs):
         t = out.split(" ")
@@ -219,7 +232,7 @@ def run_e2e(ctx):
     from sqlfluff.core import Linter, FluffConfig
     rng = ctx.rng
     stmts = ["SELECT a  FROM t", "select a from t", "SELECT a,b FROM t", "SELECT  1", "SELECT a FROM t WHERE (", "SELECT * FROM t  WHERE a=1"]
-    comments = ["", "", " -- noqa", " -- noqa: LT01", " -- noqa: CP01,LT01", " -- noqa: disable=all", " -- noqa: enable=all",
+    comments = ["", "", " -- noqa", " -- noqa: LT01", " -- noqa: LT01,PRS", " -- noqa: disable=LT*,PRS", " -- noqa: PRS,LT01", " -- noqa: CP01,LT01", " -- noqa: disable=all", " -- noqa: enable=all",
                 " -- noqa: disable=LT01", " -- noqa: enable=LT01", " -- noqa: layout.spacing", " -- noqa: L*", " -- noqa: PRS",
                 " /* noqa: disable=CP01 */", " /* noqa */", " -- noqa: disable=layout", " -- noqa: ZZ99", " -- noqa: capitalisation"]
     lines, meta = [], []
